@@ -26,7 +26,7 @@ EXT_FUNCS = {
     "numpy.isnan": "fresh", "numpy.isnat": "fresh", "numpy.isfinite": "fresh", "numpy.isinf": "fresh", "numpy.signbit": "fresh", "numpy.ceil": "fresh", "numpy.floor": "fresh",
     "numpy.minimum": "fresh", "numpy.maximum": "fresh", "numpy.logical_not": "fresh",
     "numpy.logical_and": "fresh", "numpy.logical_or": "fresh", "numpy.isin": "fresh",
-    "numpy.copy": "fresh", "numpy.append": "fresh", "numpy.insert": "fresh", "numpy.tile": "fresh",
+    "numpy.copy": "fresh", "numpy.nan_to_num": "fresh", "numpy.diff": "fresh", "numpy.column_stack": "fresh", "numpy.append": "fresh", "numpy.insert": "fresh", "numpy.tile": "fresh",
     "numpy.hstack": "fresh", "numpy.stack": "fresh", "numpy.vstack": "fresh", "numpy.roll": "fresh",
     "numpy.flip": "alias0", "numpy.choose": "fresh", "numpy.select": "fresh", "numpy.abs": "fresh",
     "numpy.random.choice": "fresh", "numpy.random.permutation": "fresh",
